@@ -3,6 +3,7 @@ package sm9
 import (
 	"errors"
 
+	"github.com/emmansun/gmsm/internal/bigmod"
 	"github.com/emmansun/gmsm/internal/sm3"
 	"github.com/emmansun/gmsm/internal/sm9/bn256"
 )
@@ -36,35 +37,22 @@ func verifH_c10_verify() {
 	sn := verifParam("sn")
 	pubBytes := verifBytes("ppub", 128)
 	pub := &SignMasterPublicKey{MasterPublicKey: &bn256.G2{}}
-	if verifSymbolic() {
-		bn256.VerifSetG2(pub.MasterPublicKey, pubBytes)
-	} else {
-		// natively: a real master key derived from the bytes
-		k := append([]byte(nil), pubBytes[:32]...)
-		k[0] &= 0x3f
-		k[31] |= 1
-		m, err := NewSignMasterPrivateKey(k)
-		if err != nil {
-			verifReach("end")
-			return
-		}
-		pub = m.PublicKey()
+	if !verifSymbolic() {
+		c10VerifyNative(sn, pubBytes)
+		verifReach("end")
+		return
 	}
+	bn256.VerifSetG2(pub.MasterPublicKey, pubBytes)
 	uid := verifBytes("uid", 3)
 	hid := verifU8("hid")
 	hash := verifBytes("hash", 32)
 	h := verifBytes("h", 32)
 	S := verifBytes("S", sn)
 	keepS, keepH := append([]byte(nil), S...), append([]byte(nil), h...)
-	got := pub.Verify(uid, hid, hash, h, S)
-	if !verifSymbolic() {
-		// natively only the format clauses are checked (the pairing equation needs a real signature)
-		if sn != 65 || keepS[0] != 4 || !c10InRangeN(keepH) {
-			verifAssert(!got, "a signature with a malformed S or an out-of-range h is rejected")
-		}
-		verifReach("end")
-		return
+	if sn == 65 && verifSymbolic() {
+		verifAssume(!c12IsZero(S[1:])) // the all-zero encoding (point at infinity) is outside the abstract group model
 	}
+	got := pub.Verify(uid, hid, hash, h, S)
 	want := false
 	if sn == 65 {
 		sx, sy := keepS[1:33], keepS[33:65]
@@ -234,4 +222,62 @@ func c10KxNative(hist int) {
 	keyB, err := resp.ConfirmInitiator(sa)
 	verifAssert(err == nil, "the responder accepts the initiator's confirmation value")
 	verifAssert(verifEqBytes(keyA, keyB), "both sides derive the same key")
+}
+
+// H1/H2 (hash-to-range: two SM3 digests, 320-bit value reduced into [1, n-1]) summarised as an
+// uninterpreted function of (mode, input) with values in [1, n-1]; their agreement with GM/T 0044 is
+// outside the claims that use this model.
+func verifModel_hash(z []byte, h hashMode) *bigmod.Nat {
+	r := verifUF("sm9.H", 32, []byte{byte(h)}, append([]byte(nil), z...))
+	verifAssume(c10InRangeN(r))
+	n, err := bigmod.NewNat().SetBytes(r, orderNat)
+	if err != nil {
+		panic("verifModel_hash")
+	}
+	return n
+}
+
+
+// native twin of the verification harness: a real signature; every alteration of the S encoding's tag
+// or length, and of h, must be rejected, the unaltered pair accepted.
+func c10VerifyNative(sn int, seed []byte) {
+	mk := append([]byte(nil), seed[:32]...)
+	mk[0] &= 0x3f
+	mk[31] |= 1
+	master, err := NewSignMasterPrivateKey(mk)
+	if err != nil {
+		return
+	}
+	uid, hid := seed[32:35], seed[35]
+	user, err := master.GenerateUserKey(uid, hid)
+	if err != nil {
+		return
+	}
+	hash := seed[40:72]
+	r := append([]byte(nil), seed[72:104]...)
+	r[0] &= 0x3f
+	r[31] |= 1
+	h, S, err := user.Sign(&c12Reader{preset: [][]byte{r}, limit: 3}, hash, nil)
+	if err != nil {
+		return
+	}
+	pub := master.PublicKey()
+	verifAssert(pub.Verify(uid, hid, hash, h, S), "an honest signature verifies")
+	switch sn {
+	case 65:
+		bad := append([]byte(nil), S...)
+		bad[0] = seed[104]
+		if bad[0] != 4 {
+			verifAssert(!pub.Verify(uid, hid, hash, h, bad), "S with an altered format tag is rejected")
+		}
+		h2 := append([]byte(nil), h...)
+		h2[int(seed[105])%32] ^= 1 << (seed[106] % 8)
+		verifAssert(!pub.Verify(uid, hid, hash, h2, S), "an altered h is rejected")
+	case 64:
+		verifAssert(!pub.Verify(uid, hid, hash, h, S[1:]), "S without its format tag is rejected")
+	case 66:
+		verifAssert(!pub.Verify(uid, hid, hash, h, append(append([]byte(nil), S...), 0)), "S with a trailing byte is rejected")
+	case 0:
+		verifAssert(!pub.Verify(uid, hid, hash, h, nil), "an empty S is rejected")
+	}
 }
